@@ -16,7 +16,7 @@ RULE = ('case = a fresh application + 2..9 registrations (rules built from a seg
         'rules on one pattern with different names) followed by 4..9 probes (paths instantiated from the rules, then '
         'mutated: separators dropped/doubled, empty segments, extension, truncation, CR/LF/NUL/non-ASCII/Arabic-Indic '
         'digits) resolved directly (Ombott.to_route) and through Ombott.__call__; a separate malformed stream feeds '
-        'random rule-like text. thorough adds all subsets of size <= 3 of a 14-rule universe x all paths of <= 4 '
+        'random rule-like text. thorough adds all subsets of size <= 3 of a 14-rule universe x all paths of <= 3 '
         'segments over a 6-symbol alphabet. non-trivial = at least two accepted rules share their first segment and a '
         'probe reached a handler through at least one wildcard; distinct by (rules, probe paths)')
 TRUSTED = ['section variable: filt : fid -> str -> option (value * nat) — the compiled filter as a function of the '
@@ -150,7 +150,7 @@ ALPHA = ['a', 'b', 'c', 'ab', '1', '']
 
 
 def thorough():
-    paths = ['/' + '/'.join(t) for k in range(0, 5) for t in itertools.product(ALPHA, repeat=k)]
+    paths = ['/' + '/'.join(t) for k in range(0, 4) for t in itertools.product(ALPHA, repeat=k)]
     for k in (1, 2, 3):
         for rules in itertools.combinations(UNIVERSE, k):
             # '/a/<x>' and '/a/<x:int>' conflict: the second is rejected, which is part of the check
@@ -326,16 +326,16 @@ def key(case):
 
 
 def classify(case, obs):
-    kinds = {}
-    for c, o in zip(_sanitize(case)['cmds'], obs):
-        if c['op'] == 'dispatch' and isinstance(o, dict):
-            k = o['direct'].get('kind')
-            kinds[k] = kinds.get(k, 0) + 1
-        elif c['op'] == 'add' and o != 0:
-            kinds['rej%s' % o] = kinds.get('rej%s' % o, 0) + 1
     if case.get('malformed'):
         return 'malformed-stream'
-    return '/'.join('%s:%s' % (k, 'n' if v > 1 else '1') for k, v in sorted(kinds.items(), key=str))
+    kinds = set()
+    rej = set()
+    for c, o in zip(_sanitize(case)['cmds'], obs):
+        if c['op'] == 'dispatch' and isinstance(o, dict):
+            kinds.add(o['direct'].get('kind'))
+        elif c['op'] == 'add' and o != 0:
+            rej.add({1: 'filter-conflict', 5: 'method-taken'}.get(o, 'err%s' % o))
+    return 'answers=%s/rejected=%s' % (sorted(kinds, key=str), sorted(rej))
 
 
 def shrink(case):
@@ -349,14 +349,26 @@ def _cr_in_path(case, what, m):
 PREDICATES = {'cr_in_path': _cr_in_path}
 
 MANIFEST = dict(
-    text=('Proof (Coq): the radix-tree lookup of coq/model/Router.v (get = RadiDict.get, insert = _set/_match/_split/'
-          '_make_route/_mount) is related to the plain rule-by-rule matcher of coq/model/RouteSpec.v; see coq/props/C01.v '
-          'for the exact theorems and which are _partial. The model is tied to /repo on every run by a differential '
-          'correspondence on Ombott.to_route and Ombott.__call__ (extracted OCaml + vm_compute), and an independent '
-          'plain matcher using the real filters is the oracle.'),
+    text=('Proof (Coq 8.16.1, every theorem closed under the global context, for ALL filters, rule scripts and paths): '
+          'C01_get_dfs_spec (on every well-formed radix tree the depth-first lookup with look-back returns exactly the held '
+          'pattern the left-to-right matcher prefers: literal before wildcard at the first difference, whole path, and '
+          'fails iff no held pattern matches — the answer depends only on the set of held patterns, not on the tree shape); '
+          'C01_wf_insert / C01_insert_paths (_set/_match/_split/_make_route/_mount keep the tree well-formed and add exactly '
+          'the new pattern; splits change nothing); C01_resolve_eq_spec (for every script of registrations in any order — '
+          'duplicates, overwrite, rejected conflicting filters, several rules on one pattern, names, method removals — '
+          'RadiRouter.resolve equals the rule-by-rule spec of coq/model/RouteSpec.v on the rules the routes index lists, '
+          '404 iff no rule matches); C01_accepted_rule_is_registered / C01_rejected_rule_changes_nothing; C01_params_exact '
+          '(kwargs = names of the registration the handler was made with, zipped with the spec values; one value per '
+          'wildcard) and C01_no_rejected_value (a filtered value is the first component of a successful answer of its own '
+          'filter); C01_F1_unguarded_variant_refuted records the repaired defect F1. The model (coq/model/Router.v) is tied '
+          'to /repo on every run by a differential correspondence on Ombott.to_route and Ombott.__call__ (extracted OCaml + '
+          'vm_compute), and an independent plain matcher using the real filters is the oracle.'),
     note=('Trusted: Coq kernel + vm_compute; extraction (ExtrOcamlBasic); the Python harness. Filters enter as a section '
-          'variable (regex engine not modelled); rex selectors excluded; the rule parser is exercised through the '
-          'correspondence (and modelled separately in C01p).'),
+          'variable (regex engine and int/float converters not modelled; the correspondence samples the real filter on '
+          'every suffix of the probe path); rex selectors excluded; guard = one filter per wildcard (what parse_rule '
+          'produces; duplicate wildcard names make the code raise IndexError). The rule parser is exercised through the '
+          'correspondence here and modelled with a print/parse round trip in the sub-check C01p. Not proved: that a '
+          'registration is rejected ONLY when a conflicting rule exists (checked by the oracle on every run).'),
     technique='Coq proof (structural induction on the tree; refinement to a list-of-rules spec) + correspondence',
     design_ref='DESIGN.md section 4, C01; Appendix A.2, A.6',
 )
